@@ -43,10 +43,15 @@ type C12Scenario struct {
 	Fault  *C12Fault `json:"fault,omitempty"`
 	Yields int       `json:"yields"`
 	Batch  int       `json:"batch,omitempty"` // WithReplayBatchSize when the store is paged
+	// SepSub: subscription offsets live in a store of their own (a second MemoryStore that survives the
+	// restarts), given with WithSubscriptionStore - before WithStore (1) or after it (2). The event store
+	// implements SubscriptionStore too; it must then never be asked to save or load an offset.
+	SepSub int `json:"sep_sub,omitempty"`
 }
 
 func genC12(rt *rapid.T) core.Scenario {
 	sc := &C12Scenario{Store: StoreCfg{Kind: rapid.SampledFrom([]string{"mem", "mem", "mem", "sqlite"}).Draw(rt, "store")}}
+	sc.SepSub = rapid.SampledFrom([]int{0, 0, 0, 1, 2}).Draw(rt, "sepSub")
 	if sc.Store.Kind == "sqlite" {
 		sc.Store.StreamBatch = rapid.SampledFrom([]int{0, 0, 2}).Draw(rt, "streamBatch")
 		sc.Store.Instr = rapid.IntRange(0, 3).Draw(rt, "instr") == 3
@@ -179,6 +184,11 @@ func (sc *C12Scenario) Execute(t *testing.T) *core.Outcome {
 		counts := map[string]int{} // fault addressing is global over the run: share the counters across incarnations
 		fired := map[string]int{}
 		var memInner eventbus.EventStore
+		var subInner *eventbus.MemoryStore
+		if sc.SepSub > 0 {
+			subInner = eventbus.NewMemoryStore()
+		}
+		offsetOpsOnEventStore := 0
 		runInc := func(n int, inc C12Inc, final bool) {
 			var inner eventbus.EventStore
 			var err error
@@ -220,6 +230,22 @@ func (sc *C12Scenario) Execute(t *testing.T) *core.Outcome {
 			}
 			fc.ShortReads = sc.Store.ShortReads
 			bopts := []eventbus.Option{eventbus.WithStore(fc.wrap(sc.Store.HideStreamer))}
+			if sc.SepSub > 0 {
+				// the decorator around the separate offset store shares the crash hook and the bookkeeping; faults of
+				// the plan that address SaveOffset / LoadOffset follow the offsets to it
+				fc2 := newFcore(subInner, fc.plan, &rec)
+				fc2.n, fc2.Fired = counts, fired
+				fc2.OnSave, fc2.OnOp, fc2.CrashBefore = fc.OnSave, fc.OnOp, fc.CrashBefore
+				fc.plan.FailSave, fc.plan.LostAckSave, fc.plan.FailLoad = nil, nil, nil
+				fc.OnSave = func(id string, off eventbus.Offset) { offsetOpsOnEventStore++ }
+				fc.OnLoad = func(id string) { offsetOpsOnEventStore++ }
+				subOpt := eventbus.WithSubscriptionStore(fsSubOnly{fc2})
+				if sc.SepSub == 1 {
+					bopts = append([]eventbus.Option{subOpt}, bopts...)
+				} else {
+					bopts = append(bopts, subOpt)
+				}
+			}
 			if sc.Batch > 0 {
 				bopts = append(bopts, eventbus.WithReplayBatchSize(sc.Batch))
 			}
@@ -291,6 +317,9 @@ func (sc *C12Scenario) Execute(t *testing.T) *core.Outcome {
 			}
 		}
 		runInc(len(sc.Incs)+1, C12Inc{CrashAtOp: -1}, true)
+		if sc.SepSub > 0 && offsetOpsOnEventStore > 0 {
+			out.V("offsets-in-the-wrong-store", "[%s] the bus was given a subscription store of its own (WithSubscriptionStore %s WithStore), yet the event store was asked to save or load an offset %d times", sc.Store, map[int]string{1: "before", 2: "after"}[sc.SepSub], offsetOpsOnEventStore)
+		}
 		for k, v := range fired {
 			if v > 0 && k != "short-read" {
 				faultFired = true
